@@ -4,17 +4,28 @@
 #   ./ionsim.sh check <property> <quick|thorough>
 #   ./ionsim.sh replay <file>
 # Exit codes: 0 held, 1 VIOLATION, 2 infrastructure trouble.
+# The checks build amzn/ion-go from /repo's working tree (IONSIM_REPO overrides the path: used only by background
+# sweeps that must not be disturbed by edits to /repo).
 set -u
-cd "$(dirname "$0")/ionsim" || exit 2
+ROOT="$(cd "$(dirname "$0")" && pwd)"
+cd "$ROOT/ionsim" || exit 2
 export GOFLAGS=-mod=mod GOPROXY=off GOSUMDB=off GOTOOLCHAIN=local GOWORK=off
-BIN=/verif/bin
+export IONSIM_VERIF_DIR="$ROOT"
+REPO="${IONSIM_REPO:-/repo}"
+BIN="$ROOT/bin"
 mkdir -p "$BIN"
+prep() {
+  cp "$REPO/go.sum" go.sum 2>/dev/null
+  if [ "$REPO" != "/repo" ]; then
+    go mod edit -replace "github.com/amzn/ion-go=$REPO" || exit 2
+  fi
+}
 build() {
-  cp /repo/go.sum go.sum 2>/dev/null
+  prep
   go build -o "$BIN/ionsim" ./cmd/ionsim || { echo "BUILD FAILED (exit 2)"; exit 2; }
 }
 build_race() {
-  cp /repo/go.sum go.sum 2>/dev/null
+  prep
   go build -race -o "$BIN/ionsim-race" ./cmd/ionsim || { echo "RACE BUILD FAILED (exit 2)"; exit 2; }
 }
 case "${1:-}" in
